@@ -24,7 +24,14 @@ pub struct Cfg {
     pub cq: Option<u32>,
     pub kernel_thread: bool,
     pub cpu: Option<u32>,
+    /// Idle timeout in whole milliseconds (older replay files).
+    #[serde(default)]
     pub idle_ms: Option<u32>,
+    /// Idle timeout as (seconds, nanoseconds) (the request is a Duration; a10
+    /// documents millisecond accuracy, the kernel field holds 32 bits of
+    /// milliseconds).
+    #[serde(default)]
+    pub idle: Option<(u64, u32)>,
     pub single_issuer: bool,
     pub defer_taskrun: bool,
     pub disabled: bool,
@@ -157,14 +164,25 @@ impl Property for C18 {
             cq,
             proptest::bool::weighted(0.3),
             proptest::option::weighted(0.25, prop_oneof![4 => 0u32..4, 1 => Just(100_000u32)]),
-            proptest::option::weighted(0.3, prop_oneof![Just(0u32), 1u32..5000, Just(u32::MAX)]),
+            proptest::option::weighted(
+                0.3,
+                prop_oneof![
+                    1 => Just(0u128),
+                    4 => (1u128..5000, 0u128..1_000_000).prop_map(|(ms, ns)| ms * 1_000_000 + ns),
+                    2 => (0u128..4, 0u128..1_000_000).prop_map(|(d, ns)| (u32::MAX as u128 - d) * 1_000_000 + ns),
+                    3 => (1u128..2000, 0u128..1_000_000).prop_map(|(d, ns)| (u32::MAX as u128 + d) * 1_000_000 + ns),
+                    2 => (1u128..60, 0u128..5000).prop_map(|(k, ms)| ((k << 32) + ms) * 1_000_000),
+                    1 => Just(u64::MAX as u128 * 1_000_000_000 + 999_999_999),
+                ]
+                .prop_map(|ns: u128| ((ns / 1_000_000_000) as u64, (ns % 1_000_000_000) as u32)),
+            ),
             proptest::bool::weighted(0.35),
             proptest::bool::weighted(0.25),
             proptest::bool::weighted(0.3),
             proptest::bool::weighted(0.2),
             proptest::option::weighted(0.35, prop_oneof![4 => 1u32..64, 1 => Just(1u32 << 21)]),
         )
-            .prop_map(|(sq, cq, kernel_thread, cpu, idle_ms, single_issuer, defer_taskrun, disabled, attach, direct)| Cfg { sq, cq, kernel_thread, cpu, idle_ms, single_issuer, defer_taskrun, disabled, attach, direct })
+            .prop_map(|(sq, cq, kernel_thread, cpu, idle, single_issuer, defer_taskrun, disabled, attach, direct)| Cfg { sq, cq, kernel_thread, cpu, idle_ms: None, idle, single_issuer, defer_taskrun, disabled, attach, direct })
             .boxed()
     }
 
@@ -277,8 +295,8 @@ fn run_one(cfg: &Cfg, refusal: Refusal, ctx: &mut Ctx) -> Option<String> {
             if let Some(cpu) = cfg.cpu {
                 c = c.with_cpu_affinity(cpu);
             }
-            if let Some(ms) = cfg.idle_ms {
-                c = c.with_idle_timeout(Duration::from_millis(ms as u64));
+            if let Some((secs, nanos)) = cfg.idle_duration() {
+                c = c.with_idle_timeout(Duration::new(secs, nanos));
             }
             if cfg.single_issuer {
                 c = c.single_issuer();
@@ -432,8 +450,8 @@ fn run_one(cfg: &Cfg, refusal: Refusal, ctx: &mut Ctx) -> Option<String> {
             if p.sq_entries != want_entries || cfg.cq.is_some_and(|c| p.cq_entries != c) {
                 fail(ctx, "params-sizes", format!("io_uring_setup sizes sq {} cq {}, requested sq {want_entries} cq {:?}", p.sq_entries, p.cq_entries, cfg.cq));
             }
-            if p.sq_thread_cpu != cfg.cpu.unwrap_or(0) || p.sq_thread_idle != cfg.idle_ms.unwrap_or(0) {
-                fail(ctx, "params-thread", format!("sq_thread_cpu {} / sq_thread_idle {} do not match the request", p.sq_thread_cpu, p.sq_thread_idle));
+            if p.sq_thread_cpu != cfg.cpu.unwrap_or(0) || p.sq_thread_idle != cfg.idle_duration().map_or(0, |(s, n)| u32::try_from(s as u128 * 1000 + n as u128 / 1_000_000).unwrap_or(u32::MAX)) {
+                fail(ctx, "params-thread", format!("sq_thread_cpu {} / sq_thread_idle {} do not match the request (cpu {:?}, idle {:?} (s, ns): whole milliseconds, saturating at the 32 bits the kernel field holds)", p.sq_thread_cpu, p.sq_thread_idle, cfg.cpu, cfg.idle_duration()));
             }
             if cfg.attach && Some(p.wq_fd as i32) != other_fd {
                 fail(ctx, "params-attach", format!("wq_fd {} is not the ring to attach to ({other_fd:?})", p.wq_fd));
@@ -622,4 +640,10 @@ fn probe(mut ring: Ring, cfg: &Cfg, ring_fd: i32, sq_entries: u32, cq_entries: u
     drop(afd);
     drop(sq);
     let _ = catch(|| drop(ring));
+}
+
+impl Cfg {
+    fn idle_duration(&self) -> Option<(u64, u32)> {
+        self.idle.or(self.idle_ms.map(|ms| ((ms / 1000) as u64, (ms % 1000) * 1_000_000)))
+    }
 }
